@@ -179,8 +179,10 @@ def run(cx):
                           f'Polynomial<{K}>: every moment sums[j] read by the normal equations (j in {sorted(R)[0]}..={sorted(R)[-1]}) is accumulated (written: {sorted(W)})',
                           where=b.file, found=f'slot(s) {missing} are read but never accumulated: they keep their initial 0' if missing else None)
             # what is accumulated: slot k += w * x_i^k
+            from vpa import comp as CMP
             for idx, val, site in writes:
                 k = idx
+                val = CMP.canon2(val)       # samples read as xs[i] in an index loop or as the items of xs.iter().zip(ys.iter()).enumerate()
                 e = match('(add _ (mul $w (call f64::powi (index (param xs) $i) (cast int $k))))', val) or match('(add _ (mul $w (call f64::powi (index (param xs) $i) $k)))', val)
                 okk = e is not None and (e['k'] == k or match('(field 0 (itervar $s))', e['k']) is not None and k[0] == 'field' and e['k'] == k)
                 okw = e is not None and match('(call *Weights::get _ $i)', e['w'], {'i': e['i']}) is not None
@@ -189,6 +191,10 @@ def run(cx):
         # every sample contributes: within one cycle of the loop over the samples no path skips an accumulation loop
         loops = b.loops()
         sample_loops = [lp for lp in loops if any(c.bb == lp[0] and match('(call Range::next (phi (agg *Range (start 0) (end (len (param xs)))) (loop)))', cx.call(c)) is not None for c in b.calls('Range::next'))]
+        if not sample_loops:
+            # the samples iterated as xs.iter().zip(ys.iter()).enumerate()
+            sample_loops = [lp for lp in loops if any(c.bb == lp[0] and match('(call *::next (anyphi (call Iterator::enumerate (call Iterator::zip (or (param xs) (call *::iter (param xs))) (or (param ys) (call *::iter (param ys)))))))', cx.call(c)) is not None
+                                                      for c in b.calls('*::next'))]
         oke = len(sample_loops) == 1
         if oke and acc is not None:
             h, blocks, backs = sample_loops[0]
@@ -200,7 +206,7 @@ def run(cx):
         rhs = [m for m in b.mutations() if m.root in rhs_l and m.kind == 'store']
         okr = False
         for m in rhs:
-            val = simplify(dag.rvalue(m.data['rv'], m.bb, m.idx))
+            val = CMP.canon2(simplify(dag.rvalue(m.data['rv'], m.bb, m.idx)))
             tgt = simplify(dag.local(m.data['pl']['l'], m.bb, m.idx))
             e = match('(add _ (mul (mul $w (call f64::powi (index (param xs) $i) $k)) (index (param ys) $i)))', val)
             t = match('(index _ (agg tuple (0 $k) (1 0)))', tgt)
@@ -251,8 +257,9 @@ def run(cx):
         st = [m for m in b.mutations() if m.kind == 'store']
         ok = False
         for m in st:
-            val = simplify(b.dag().rvalue(m.data['rv'], m.bb, m.idx))
-            tgt = simplify(b.dag().local(m.data['pl']['l'], m.bb, m.idx))
+            from vpa import comp as CMP
+            val = CMP.canon2(simplify(b.dag().rvalue(m.data['rv'], m.bb, m.idx)))       # `res[i] = ..` in an index loop or `*value = ..` over iter_mut().enumerate()
+            tgt = CMP.canon2(simplify(b.dag().local(m.data['pl']['l'], m.bb, m.idx)))
             e = match('(mul (index (self base_residuals) $i) (index (self weights) $i))', val)
             if e and match('(index _ $i)', tgt, e):
                 ok = True
